@@ -35,6 +35,14 @@ def run(R):
     R.check(not via_value, "C11.FLUSH-NORAISE", fl.qualname, R.site(fl),
             "flush() computes the batch through error(), which stores a failure instead of raising it",
             "flush() computes through %s: a failing flush body raises out of flush()" % ", ".join(q.src(c) for n, c in via_value))
+    # ... and every flush() that returns has finished the batch: no way round the computing call (an early return for an empty batch
+    # leaves it pending and the active batch of its kind, and a second flush() passes instead of raising BatchingError)
+    comps_ = [n for n, c in kit.call_sites(fl, lambda c: q.call_name(c) in ("self.error", "self._compute", "self.value", "self"))]
+    pf = cfg.find_path([cfg.entry], [cfg.exit], N, cut_nodes=comps_)
+    R.check(pf is None and comps_, "C11.FLUSH-NORAISE", fl.qualname + ":always-finishes", R.site(fl),
+            "every flush() of a pending batch that returns has computed the batch",
+            "flush() can return without computing the batch (e.g. an early return when it has no items): the batch stays pending, the flush body is not run, "
+            "and flushing it again passes silently instead of raising BatchingError", cfg.fmt_path(pf) if pf else None)
     # ---- IS-FLUSHED means finished
     isf = bb.methods.get("is_flushed")
     R.need(isf is not None, "anchor vanished: BatchBase.is_flushed")
